@@ -39,6 +39,10 @@ enum Act {
     /// an interrupt arrives `after` boundaries from now
     ArriveLater(u8, u64),
     Work(u32),
+    /// the code (a closure body, or the caller) flips another system flag through the crate's own
+    /// rflags wrappers and leaves it flipped: ID as CPUID probing does, AC as a `stac` region,
+    /// NT, or the (simulated) TF of a debugger that starts or stops stepping
+    SysFlag(u8),
 }
 
 fn parse(v: &Value) -> Act {
@@ -54,6 +58,7 @@ fn parse(v: &Value) -> Act {
         "disable" => Act::Disable,
         "are_enabled" => Act::AreEnabled,
         "enable_and_hlt" => Act::EnableAndHlt(v["site"].as_u64().unwrap_or(0) as u8 & 63),
+        "sysflag" => Act::SysFlag(v["bit"].as_u64().unwrap_or(21) as u8),
         "arrive" => Act::Arrive(v["vector"].as_u64().unwrap_or(32) as u8),
         "arrive_later" => Act::ArriveLater(v["vector"].as_u64().unwrap_or(32) as u8, v["after"].as_u64().unwrap_or(1)),
         _ => Act::Work(v["n"].as_u64().unwrap_or(1) as u32),
@@ -64,7 +69,7 @@ fn gen_body(rng: &mut Rng, depth: u32, next_id: &mut u32, top: bool) -> Vec<Valu
     let n = if top { rng.range(1, 6) } else { rng.below(4) };
     let mut out = vec![];
     for _ in 0..n {
-        let k = if top { rng.weighted(&[60, 0, 20, 20, 20, 30, 30, 20, 10, 20, 20, 30, 3, 25]) } else { rng.weighted(&[4, 3, 0, 0, 2, 0, 3, 2, 2, 2, 2, 0, 0, 2]) };
+        let k = if top { rng.weighted(&[60, 0, 20, 20, 20, 30, 30, 20, 10, 20, 20, 30, 3, 25, 8]) } else { rng.weighted(&[4, 3, 0, 0, 2, 0, 3, 2, 2, 2, 2, 0, 0, 2, 2]) };
         out.push(match k {
             0 if depth < 6 => {
                 let id = *next_id;
@@ -86,6 +91,7 @@ fn gen_body(rng: &mut Rng, depth: u32, next_id: &mut u32, top: bool) -> Vec<Valu
             }
             10 => json!({"op": "probe3"}),
             13 => json!({"op": "leaf", "kind": rng.below(3), "seed": rng.next()}),
+            14 => json!({"op": "sysflag", "bit": *rng.pick(&[21u64, 21, 18, 18, 14, 8])}),
             12 => {
                 let id = *next_id;
                 *next_id += 1;
@@ -119,8 +125,9 @@ pub fn gen(seed: u64) -> Replay {
     // region AC, old task switches NT, IOPL by the loader): they must not confuse the flag logic
     let mut sys = 0u64;
     if rng.chance(40) {
-        // (VIF/VIP, bits 19/20, can be loaded by an iretq image and are left alone by popfq)
-        for b in [21u32, 18, 14, 12, 13, 19, 20] {
+        // (VIF/VIP, bits 19/20, can be loaded by an iretq image and are left alone by popfq; bit 8 is
+        // the simulated TF of a debugger stepping through the code)
+        for b in [21u32, 18, 14, 12, 13, 19, 20, 8] {
             if rng.chance(40) {
                 sys |= 1 << b;
             }
@@ -402,8 +409,21 @@ fn exec(acts: &[Act], obs: &mut Obs) {
             Act::Work(n) => {
                 work(*n);
             }
+            Act::SysFlag(b) => {
+                let v = x86_64::registers::rflags::read_raw();
+                unsafe { x86_64::registers::rflags::write_raw(v ^ (1 << (*b & 31))) };
+            }
         }
     }
+}
+
+/// which other system flags the action itself flips (through all nesting levels)
+fn sys_toggles(acts: &[Act]) -> u64 {
+    acts.iter().fold(0, |m, a| match a {
+        Act::Wi { body, .. } => m ^ sys_toggles(body),
+        Act::SysFlag(b) => m ^ (1 << (*b & 31)),
+        _ => m,
+    })
 }
 
 /// expected (Pushfq / Cli / Sti / Hlt / Mark) sequence and IF evolution
@@ -549,8 +569,9 @@ pub fn run(rp: &Replay, st: &mut Stats) -> Option<Violation> {
         if w.cpu.iflag != model.iflag {
             return Some(viol(&["C17"], "flag-after", i, format!("IF was {} before, is {} afterwards, expected {}", if_before as u8, w.cpu.iflag as u8, model.iflag as u8)));
         }
-        if w.cpu.rflags_sys != sys_before {
-            return Some(viol(&["C17"], "other-flags-changed", i, format!("system flags changed {sys_before:#x} -> {:#x}", w.cpu.rflags_sys)));
+        let sys_want = sys_before ^ sys_toggles(one);
+        if w.cpu.rflags_sys != sys_want {
+            return Some(viol(&["C17"], "other-flags-changed", i, format!("system flags changed {sys_before:#x} -> {:#x}, expected {sys_want:#x} (only what the action itself flipped)", w.cpu.rflags_sys)));
         }
         if !obs.rets_ok {
             return Some(viol(&["C17"], "closure-result", i, "without_interrupts did not return the closure's result".into()));
@@ -573,10 +594,28 @@ pub fn run(rp: &Replay, st: &mut Stats) -> Option<Violation> {
             }
         }
         if matches!(a, Act::Enable | Act::Disable) {
-            let core: Vec<&Ev> = trace.iter().filter(|e| !matches!(e, Ev::Deliver { .. })).collect();
-            let want = if matches!(a, Act::Enable) { Ev::Sti } else { Ev::Cli };
-            if core.len() != 1 || *core[0] != want {
-                return Some(viol(&["C17"], "enable-disable", i, format!("expected exactly {want:?}, executed {trace:?}")));
+            // "set / clear the flag and change nothing else": the flag goes to its target value and
+            // never to the opposite one on the way; reading the flags first is the implementation's
+            // business (how the flag is written too: sti/cli or a popfq image), anything that is not
+            // a flag access is not
+            let target = matches!(a, Act::Enable);
+            let mut f = if_before;
+            let mut reached = if_before == target;
+            for e in &trace {
+                match e {
+                    Ev::Deliver { .. } | Ev::Pushfq { .. } => {}
+                    Ev::Sti => f = true,
+                    Ev::Cli => f = false,
+                    Ev::Popfq { val } => f = val & 0x200 != 0,
+                    other => return Some(viol(&["C17"], "enable-disable", i, format!("{} executed {other:?}, which is not an access to the flags: {trace:?}", if target { "enable" } else { "disable" }))),
+                }
+                reached |= f == target;
+                if f != target && reached {
+                    return Some(viol(&["C17"], "enable-disable", i, format!("{} moved the flag away from its target on the way: {trace:?}", if target { "enable" } else { "disable" })));
+                }
+            }
+            if !trace.iter().any(|e| matches!(e, Ev::Sti | Ev::Cli | Ev::Popfq { .. })) {
+                return Some(viol(&["C17"], "enable-disable", i, format!("{} executed no instruction that writes the flag: {trace:?}", if target { "enable" } else { "disable" })));
             }
         }
         // 3b. the value taken inside the critical section is the one the memory held once
@@ -648,6 +687,7 @@ pub fn run(rp: &Replay, st: &mut Stats) -> Option<Violation> {
             Act::Arrive(_) => 6,
             Act::ArriveLater(..) => 7,
             Act::Work(_) => 8,
+            Act::SysFlag(_) => 16,
         };
         st.distinct_key(&[kind, if_before as u64, depth(a), pending_before as u64, trace.iter().filter(|e| matches!(e, Ev::Deliver { .. })).count().min(3) as u64, trace.len().min(40) as u64]);
     }
